@@ -122,6 +122,13 @@ Definition print_wtarget (w : wtarget) : bytes :=
   | WMessenger k => B "messenger" ++ kv_hex "k" k | WNonce k => B "nonce" ++ kv_hex "k" k
   end.
 
+Fixpoint eq_lines (a b : list bytes) : bool :=
+  match a, b with
+  | [], [] => true
+  | x :: a', y :: b' => beqb x y && eq_lines a' b'
+  | _, _ => false
+  end.
+
 (* ---------- interpreter state ---------- *)
 Record dstate := {
   d_hrp : bytes; d_denom : bytes; d_module : bytes;
@@ -436,6 +443,12 @@ Definition run_line (d : dstate) (line : bytes) : dstate * list bytes :=
                ++ indexed "E" n 0 (map print_event (r_events r))
                ++ indexed "D" n 0 (map print_depcall (r_calls r))
                ++ numbered "DW" n (map print_wtarget (doc_writes t (c_st (d_chain d))))
+               ++ (match r_out r with
+                   | OOk _ => []
+                   | _ => (* did the handler change its own branch before failing? *)
+                       [B "WF " ++ n ++ sp ++
+                        (if eq_lines (print_state (h_st (r_dirty r)) []) (print_state (c_st (d_chain d)) []) then B "clean" else B "dirty")]
+                   end)
                ++ numbered "S" n (print_state (c_st (r_chain r)) (c_lg (r_chain r))))
           end
       | _ => (d, bad (B "TX"))
